@@ -138,6 +138,7 @@ type g struct {
 	annMsgs []string // names of annotated message types usable as nested or top-level bodies
 	usedHdrM map[string]bool
 	svcHdr   map[string]*spec.Header
+	lastMethHdr map[string]string
 }
 
 type route struct {
@@ -451,7 +452,7 @@ var headerFormats = []string{"", "", "uuid", "email", "date-time", "date", "time
 var headerNames = []string{"X-API-Key", "X-Request-ID", "X-Tenant", "Authorization", "X-Trace-Id", "Accept-Language", "X-Count", "X-Flag"}
 
 func (x *g) header(name string) *spec.Header {
-	h := &spec.Header{Name: name, Required: x.r.chance(3, 4)}
+	h := &spec.Header{Name: name, Required: x.r.chance(2, 3)}
 	h.Type = pick(x.r, headerTypes)
 	if h.Type == "" || h.Type == "string" {
 		h.Format = pick(x.r, headerFormats)
@@ -698,12 +699,19 @@ func (x *g) method(s *spec.Service, name string, idx int, usedRoutes map[string]
 		if x.svcHdr == nil {
 			x.svcHdr = map[string]*spec.Header{}
 		}
+		if last := x.lastMethHdr[s.Name]; last != "" && x.r.chance(1, 2) {
+			hn = last // several methods of a service typically share a method-level header
+		}
+		if x.lastMethHdr == nil {
+			x.lastMethHdr = map[string]string{}
+		}
 		key := s.Name + "|" + strings.ToLower(hn)
 		if prev := x.svcHdr[key]; prev != nil {
 			cp := *prev
 			m.Headers = append(m.Headers, &cp)
 		} else if !x.usedHdrM[strings.ToLower(hn)] {
 			h := x.header(hn)
+			x.lastMethHdr[s.Name] = hn
 			x.svcHdr[key] = h
 			x.usedHdrM[strings.ToLower(hn)] = true
 			m.Headers = append(m.Headers, h)
